@@ -62,7 +62,7 @@ func (b Buffer) RedactableBytes() m.RedactableBytes {
 	// NB: we're dependent on the fact this is a copy of the original
 	// buffer. The finalize() method should not be called
 	// in a conceputally read-only accessor like RedactableBytes().
-	b.finalize()
+	b.finalizeCopy()
 	return m.RedactableBytes(b.buf)
 }
 
@@ -71,7 +71,7 @@ func (b Buffer) RedactableString() m.RedactableString {
 	// NB: we're dependent on the fact this is a copy of the original
 	// buffer. The finalize() method should not be called
 	// in a conceputally read-only accessor like RedactableString().
-	b.finalize()
+	b.finalizeCopy()
 	return m.RedactableString(b.buf)
 }
 
@@ -80,7 +80,7 @@ func (b Buffer) String() string {
 	// NB: we're dependent on the fact this is a copy of the original
 	// buffer. The finalize() method should not be called
 	// in a conceputally read-only accessor like String().
-	b.finalize()
+	b.finalizeCopy()
 	return m.RedactableString(b.buf).StripMarkers()
 }
 
@@ -115,7 +115,7 @@ func (b *Buffer) TakeRedactableString() m.RedactableString {
 // Len returns the number of bytes in the buffer.
 func (b *Buffer) Len() int {
 	copy := *b
-	copy.finalize()
+	copy.finalizeCopy()
 	return len(copy.buf)
 }
 
@@ -183,6 +183,17 @@ func (b *Buffer) WriteRune(s rune) error {
 	}
 	_ = utf8.EncodeRune(b.buf[m:], s)
 	return nil
+}
+
+// finalizeCopy is finalize() for a copy of the buffer made by a
+// read-only accessor. The copy shares its array of bytes with the
+// original: remove its spare capacity first, so that the closing
+// marker is appended to a new array and not written into the
+// original's, where it would race with other readers of the same
+// buffer (e.g. two goroutines printing the same StringBuilder).
+func (b *Buffer) finalizeCopy() {
+	b.buf = b.buf[:len(b.buf):len(b.buf)]
+	b.finalize()
 }
 
 // finalize ensures that all the buffer is properly
